@@ -39,6 +39,19 @@ func (v *Voter) VerifProcessVote(sender common.Address, data *BlockHashWithVotes
 	return v.processVoteMsg(VoteMsgEvent{Msg: &CachedVotesMessage{VotesData: data, addr: sender}, VType: voteType}, msgSame)
 }
 
+// Message statuses as the message handler computes them from its own (round, index) context.
+const (
+	VerifMsgOldRound      = uint8(msgOldRound)
+	VerifMsgOldRoundIndex = uint8(msgOldRoundIndex)
+	VerifMsgSame          = uint8(msgSame)
+	VerifMsgFuture        = uint8(msgFuture)
+)
+
+// VerifProcessVoteStatus is VerifProcessVote with the status the message handler would pass.
+func (v *Voter) VerifProcessVoteStatus(sender common.Address, data *BlockHashWithVotes, voteType VoteType, status uint8) (error, bool) {
+	return v.processVoteMsg(VoteMsgEvent{Msg: &CachedVotesMessage{VotesData: data, addr: sender}, VType: voteType}, MsgReceivedStatus(status))
+}
+
 // VerifLatches returns the in-memory once-only latches.
 func (v *Voter) VerifLatches() (precommitted, certificated, committed bool) {
 	v.lock.Lock()
